@@ -9,3 +9,4 @@ INVARIANT InverseLaw
 INVARIANT PairwiseDifferent
 INVARIANT HExact
 INVARIANT Increasing
+INVARIANT TypedOK
